@@ -13,13 +13,14 @@ import (
 	"os"
 	"path/filepath"
 	"reflect"
-	"regexp"
 	"sort"
 	"strings"
 	"sync"
 
 	"golang.org/x/tools/go/packages"
 	"golang.org/x/tools/go/ssa"
+
+	"verif/engine/vrt"
 )
 
 type skInfo struct {
@@ -101,36 +102,9 @@ func loadSkeleton(dir string) *skInfo {
 	return si
 }
 
-var reSlot = regexp.MustCompile(`(?m)^[ \t]*// :@(S[0-9A-Za-z_]+)@[ \t]*\n`)
-
-// substituteSlots replaces every slot line by the notation text chosen for it (or removes it).
-// choose(slot, n) returns the index of the chosen menu entry.
-func substituteSlots(src []byte, slots map[string][]string, choose func(slot string, n int) int) []byte {
-	return reSlot.ReplaceAllFunc(src, func(m []byte) []byte {
-		sm := reSlot.FindSubmatch(m)
-		name := string(sm[1])
-		menu, ok := slots[name]
-		if !ok {
-			return nil
-		}
-		k := choose(name, len(menu))
-		text := menu[k]
-		if text == "" {
-			return nil
-		}
-		indent := m[:len(m)-len(strings.TrimLeft(string(m), " \t"))]
-		var out []byte
-		for _, line := range strings.Split(text, "\n") {
-			out = append(out, indent...)
-			out = append(out, []byte("// "+line+"\n")...)
-		}
-		return out
-	})
-}
-
 // SubstituteSlotsForModel materialises a skeleton source with the slot choices of a model.
 func SubstituteSlotsForModel(src []byte, slots map[string][]string, model map[string]interface{}) []byte {
-	return substituteSlots(src, slots, func(slot string, n int) int {
+	return vrt.SubstituteSlots(src, slots, func(slot string, n int) int {
 		k := 0
 		switch v := model["slot."+slot].(type) {
 		case float64:
@@ -148,12 +122,22 @@ func SubstituteSlotsForModel(src []byte, slots map[string][]string, model map[st
 }
 
 // LoadSlots reads the slot menus of a skeleton directory.
-func LoadSlots(dir string) map[string][]string {
-	m := map[string][]string{}
-	if b, err := os.ReadFile(filepath.Join(dir, "slots.json")); err == nil {
-		json.Unmarshal(b, &m)
+func LoadSlots(dir string) map[string][]string { return vrt.LoadSlots(dir) }
+
+// slotChoice forks over the menu of a slot once per path (input slot.<name>).
+func (r *Run) slotChoice(slot string, n int) int {
+	key := "slotchoice:" + slot
+	if v, ok := r.Env[key]; ok {
+		return v.(int)
 	}
-	return m
+	iv := r.newInput("slot."+slot, SInt)
+	conds := make([]*Term, n)
+	for i := range conds {
+		conds[i] = Eq(iv, IntT(int64(i)))
+	}
+	k := r.decide(conds)
+	r.Env[key] = k
+	return k
 }
 
 func structField(r *Run, st structure, t types.Type, name string) value {
@@ -167,6 +151,16 @@ func structField(r *Run, st structure, t types.Type, name string) value {
 }
 
 func TModeStubs(st map[string]StubFn) {
+	st[vrtPkg+"SlotText"] = func(r *Run, fr *frame, fn *ssa.Function, a []value) value {
+		menu := loadSkeleton(r.E.SkeletonRoot + "/" + a[0].(string)).slots[a[1].(string)]
+		if len(menu) == 0 {
+			return ""
+		}
+		return vrt.InstantiateSlot(menu, r.slotChoice(a[1].(string), len(menu)), r.slotChoice)
+	}
+	st[vrtPkg+"SlotFamily"] = func(r *Run, fr *frame, fn *ssa.Function, a []value) value {
+		return r.slotChoice("family", len(vrt.ToggleFamilies))
+	}
 	st["golang.org/x/tools/go/packages.Load"] = func(r *Run, fr *frame, fn *ssa.Function, a []value) value {
 		cfgPtr, ok := a[0].(*value)
 		if !ok || cfgPtr == nil {
@@ -202,20 +196,7 @@ func TModeStubs(st map[string]StubFn) {
 		for _, f := range si.files {
 			src := si.srcs[f]
 			if len(si.slots) > 0 {
-				src = substituteSlots(src, si.slots, func(slot string, n int) int {
-					key := "slotchoice:" + slot
-					if v, ok := r.Env[key]; ok {
-						return v.(int)
-					}
-					iv := r.newInput("slot."+slot, SInt)
-					conds := make([]*Term, n)
-					for i := range conds {
-						conds[i] = Eq(iv, IntT(int64(i)))
-					}
-					k := r.decide(conds)
-					r.Env[key] = k
-					return k
-				})
+				src = vrt.SubstituteSlots(src, si.slots, r.slotChoice)
 			}
 			res := r.call(fr, fr.callpos, parseFile, []value{fsetV, f, bytesVal(src)}).(tuple)
 			if errv, _ := res[1].(iface); !errv.isNil() {
